@@ -318,3 +318,31 @@ PROPS["C06"] = {
         "thorough": [{"mode": "rc", "cases": 25000, "max_size": 100}],
     },
 }
+
+PROPS["C19"] = {
+    "manifest": {
+        "level_text": ("reader.c is compiled with mmap/munmap renamed so that the file 'mapping' is an exact-size ASan heap block: any access "
+                       "one byte outside the file is a sanitizer report (a real mapping hides over-reads up to the page end). Enumerator: "
+                       "for 12 base files (writer- and independent-encoder-made, v1 and v2, with/without foreign prefix, empty table, "
+                       "single- and multi-block, 5 algorithms) EVERY truncation length, every index_block_offset / index length prefix / "
+                       "index num_restarts value in 0..size+600 plus 32/64-bit boundary values, each magic variant, each with and without "
+                       "verify_checksums (exhaustive per base file and field in the thorough tier); plus rapidcheck-generated multi-field "
+                       "mutations, byte patches and raw random files. Accepts NULL, a reader, or an assertion stop; rejects sanitizer "
+                       "reports and signals."),
+        "level_note": TRUST + " Only mtbl_reader_init/_init_fd are judged (the returned reader is destroyed, not iterated).",
+        "technique": "fault/field-mutation enumeration + " + PBT + "; memory-safety oracle (ASan on an exact-size heap 'mapping')",
+    },
+    "src": "props/C19.cpp", "extra_src": ["harness/shims/shims.c"], "shims": ["reader.mmshim"],
+    "level": "exploration",
+    "rule": ("mode enum: one work item = (base file, field, verify flag) with every value of the field opened in turn (counter "
+             "enumerated_opens); non-trivial opens are those whose input passes the size and magic gate. mode rc: case = base file + "
+             "1-3 field/byte mutations, or a raw generated file; non-trivial = passes the size and magic gate; distinct by FNV-1a."),
+    "expect_tags": ["returned_NULL", "returned_reader", "assertion_stop", "passes_size_and_magic_gate", "verify_checksums",
+                    "mut_0", "mut_1", "mut_2", "mut_3", "mut_4", "mut_5", "mut_6"],
+    "assumptions": ["the heap-backed mapping behaves like a private read-only mapping of the same bytes"],
+    "tiers": {
+        "quick": [{"mode": "enum", "kv": {"full": 0}, "note": "bases 0,1 and a third of the others"}, {"mode": "rc", "cases": 1500, "max_size": 100}],
+        "thorough": [{"mode": "enum", "kv": {"full": 1}, "exhaustive": True, "note": "all 12 base files x 5 fields x verify on/off"},
+                     {"mode": "rc", "cases": 40000, "max_size": 100}],
+    },
+}
